@@ -283,10 +283,11 @@ class Ctx:
         r.unwindset = us
         if r.status == 'fail' and q.expect != 'witness':
             # counterexample wanted: re-run once with --trace (traces of the big tables are slow to print, so not by default)
-            left = max(60, deadline - time.time())
-            out, rc, to, wall = s._cbmc_once(q, us, left, trace=True)
+            # the re-run gets a fresh budget of its own (same formula, so about the same solver time as the first run)
+            out, rc, to, wall = s._cbmc_once(q, us, max(q.timeout, 60), trace=True)
             r.wall += wall
             if not to and 'VERIFICATION FAILED' in out: r.out = out
+            else: r.notrace = True     # verdict FAILED stands, but there is no assignment to replay
         return r
 
     def run_queries(s, queries, par=None, label=''):
